@@ -27,7 +27,7 @@ PF_FIELDS = dict(
     name=STR, attname=STR, type=Cls(name="ftype"), output_type=NONE, field=Rec("Field"), output_field=NONE,
     final=BOOL, required=BOOL, mode=NONE, no_input=BOOL, no_output=BOOL, default=UNPROVIDED, default_factory=NONE,
     defer_default=BOOL, on_error=NONE, case_insensitive=NONE, discriminator_map=NONE, deprecated_to=NONE,
-    dependencies=NONE,
+    dependencies=NONE, property=NONE, dependants=NONE,
 )
 
 
